@@ -13,6 +13,11 @@ import engine_run as er
 import vlib
 
 
+KNOWN_SIGS = {
+    "KNOWN:own-action-throws": "a rule whose own action throws gets start but no success/failure/unwind",
+}
+
+
 def case_of(K, r):
     g = K.grams[r["gid"]]
     return {"gid": r["gid"], "root": g.root, "rules": g.rules, "cfg": r["cfg"], "input_hex": r["input"]}
@@ -28,7 +33,7 @@ def signature(K, rec, msg):
 
 def work(args):
     common, ch, cfgs_of, maxlen, pid, sanitize = args
-    out = {"diffs": [], "violations": [], "n": 0, "ndiff": 0, "cells": collections.Counter(), "nontrivial": set(), "samples": [],
+    out = {"known_seen": set(), "diffs": [], "violations": [], "n": 0, "ndiff": 0, "cells": collections.Counter(), "nontrivial": set(), "samples": [],
            "dist": collections.Counter(), "error": None, "gids": [g.gid for g in ch], "extra": collections.Counter()}
     try:
         K = er.run_chunk(common, ch, cfgs_of, maxlen, sanitize=sanitize)
@@ -73,6 +78,15 @@ def work(args):
         if oracle:
             msgs = oracle(K, ri, out["extra"])
             for msg in msgs[:3]:
+                if msg.startswith("KNOWN:"):
+                    sig = KNOWN_SIGS[msg]
+                    if sig not in out["known_seen"]:
+                        out["known_seen"].add(sig)
+                        g = K.grams[ri["gid"]]
+                        out["violations"].append((sig, sig, {"grammar_cpp": g.cpp(), "cfg": ri["cfg"], "input_hex": ri["input"], "impl_trace": ri["events"][:2000],
+                                                             "gram": {"gid": g.gid, "rules": g.rules, "root": g.root, "surface": g.surface, "tags": sorted(g.tags), "pre": g.pre}}))
+                    out["extra"]["known_finding_occurrences"] += 1
+                    continue
                 if len(out["violations"]) < 40:
                     g = K.grams[ri["gid"]]
                     out["violations"].append((signature(K, ri, msg), msg,
@@ -83,6 +97,7 @@ def work(args):
             out["samples"].append({"grammar": K.grams[ri["gid"]].root, "cfg": ri["cfg"], "input_hex": ri["input"], "result": ri["res"], "cursor": ri["cur"],
                                    "events": ri["events"][:300]})
     out["nontrivial"] = len(out["nontrivial"])
+    out["known_seen"] = sorted(out["known_seen"])
     return out
 
 
